@@ -115,6 +115,8 @@ def pipeline(ctx, cases_by=None):
     q = ctx.tier == "quick"
     ctx.assumptions.extend(ASSUMPTIONS)
     ctx.tlc_mc("HdrFtr_MC.tla", "HdrFtr_MC_quick.cfg" if q else "HdrFtr_MC_thorough.cfg", workers=4 if q else 8)
+    if not q:
+        ctx.tlc_mc("HdrFtr_MC.tla", "HdrFtr_MC_deep.cfg", workers=8)
     if cases_by is None:
         cnt = collections.Counter()
         allc, depths = [], {}
@@ -122,9 +124,15 @@ def pipeline(ctx, cases_by=None):
             allc += ctx.tlc_gen("HdrFtr_MC.tla", gencfg(ctx, "gen_%s.cfg" % tag, ops, args, depth), "bfs" + tag)
             depths[tag] = {"ops": sorted(ops), "depth": depth, "args": {k: sorted(v, key=str) for k, v in args.items()}}
         ctx.exhaustive = True
+        # seeded random long behaviours. -simulate evaluates every successor at every step, so each run samples from
+        # argument pools narrowed by rotation (run k of seed s uses rotation s + k); together the runs cover the wide pools
         d = 10 if q else 20
-        allc += ctx.tlc_gen("HdrFtr_MC.tla", gencfg(ctx, "gen_sim.cfg", ALLOPS, WIDE, d, last=["ToBytes", "Save"]), "sim", mode="sim",
-                            num=30 if q else 800, depth=d + 1)
+        for k in range(1 if q else 5):
+            r = ctx.seed + k
+            pools = dict(WIDE, FmtC={"nil", FMTS[r % 4]}, AlignC={"", ALIGNS[r % 4]}, TextC={"empty", "var", TEXTS[r % 4]},
+                         PageC=set(sorted(PAGE_ALL)[r % 5::5]))
+            allc += ctx.tlc_gen("HdrFtr_MC.tla", gencfg(ctx, "gen_sim%d.cfg" % k, ALLOPS, pools, d, last=["ToBytes", "Save"]),
+                                "sim%d" % k, mode="sim", num=30 if q else 100, depth=d + 1, seed_off=k)
         for c in allc:
             for s in c["steps"]:
                 cnt[s["op"] + (":" + s["which"] if "which" in s else "")] += 1
